@@ -1,3 +1,4 @@
+import Lean.Elab.Tactic
 import AsherahVerif.Proofs.EnvFootprint
 /-
 Resource proofs (C09 / C10 / C03), shared base: an invariant-preservation tactic in the style of
@@ -29,6 +30,17 @@ theorem takeFault_preserves {I : World → Prop} (h : ∀ w fl, I w → I { w wi
 
 theorem keyObj_preserves {I : World → Prop} (o : Nat) : Preserves I (keyObj o) := fun _ h => h
 theorem getCache_preserves {I : World → Prop} (c : Nat) : Preserves I (getCache c) := fun _ h => h
+
+open Lean Elab Tactic Meta in
+/-- `intro` one binder, but only when the goal is a proposition (never on a goal that stands for
+a still-unknown intermediate assertion `?R : α → World → Prop`). -/
+elab "intro_prop" : tactic => do
+  let g ← getMainGoal
+  let t ← instantiateMVars (← g.getType)
+  unless t.isForall do throwError "intro_prop: the goal is not syntactically a ∀"
+  unless (← isProp t) do throwError "intro_prop: the goal is not a proposition"
+  let (_, g') ← g.intro1
+  replaceMainGoal [g']
 
 /-- one structural step of an invariant-preservation proof (syntactic rule applications only). -/
 macro "pres_step" : tactic => `(tactic| first
@@ -171,7 +183,7 @@ macro "spec_step" : tactic => `(tactic| first
   | with_reducible apply Preserves.finallyDo | with_reducible apply Preserves.tryM | with_reducible apply Preserves.bind
   | with_reducible apply Preserves.toSpec
   | contradiction
-  | (with_reducible intro _) | split | dsimp only)
+  | intro_prop | split | dsimp only)
 
 /-- `Spec` proofs: unfold the function, then `spec_auto [lemmas about the functions it calls]`
 (both `Spec` and `Preserves` lemmas). -/
